@@ -293,6 +293,16 @@ Proof.
   rewrite <- E, N.eqb_refl. discriminate.
 Qed.
 
+Lemma new_index_small v : v <= start_index -> new_index v = start_index - v.
+Proof.
+  intros L. unfold new_index, start_index, two64 in *.
+  change (2 ^ 48) with 281474976710656 in *.
+  rewrite (N.mod_small v) by lia.
+  replace (281474976710656 - 1 + 18446744073709551616 - v)
+    with (281474976710656 - 1 - v + 1 * 18446744073709551616) by lia.
+  rewrite N.mod_add by discriminate. apply N.mod_small. lia.
+Qed.
+
 (* ------------------------------------------------------------------ *)
 (* Part B/C: generic in the hash                                       *)
 
@@ -661,7 +671,7 @@ Section WithHash.
     Inv st val -> st_index st < start_index - v ->
     lookup st v = Some (val (start_index - v)).
   Proof.
-    intros I L. unfold Model.lookup, new_index.
+    intros I L. unfold Model.lookup. rewrite new_index_small by lia.
     assert (L2 : start_index - v < 2 ^ 48) by (unfold start_index; lia).
     apply (lookup_from_spec st val _ I L L2).
     destruct (inv_cover _ _ I _ L L2) as (b & e & G & R).
@@ -792,9 +802,11 @@ Section WithHash.
   Qed.
 
   Lemma at_index_pval root v :
+    v <= start_index ->
     at_index root v = Some (pval root (start_index - v)).
   Proof.
-    unfold Model.at_index, Model.derive, new_index. cbn [el_index el_hash].
+    intros Lv. unfold Model.at_index, Model.derive. rewrite new_index_small by assumption.
+    cbn [el_index el_hash].
     set (to := start_index - v).
     assert (Lt : to < 2 ^ 48) by (unfold to, start_index; lia).
     unfold derive_bits. destruct (N.eqb_spec 0 to) as [E|NE].
@@ -955,7 +967,7 @@ Section WithHash.
                 (Inv_new _) L (pval_edges root)) as (st & A & I).
     - intros i h E.
       assert (Li : (i < length hs)%nat) by (apply nth_error_Some; congruence).
-      rewrite (PR i Li), at_index_pval in E. injection E as <-. reflexivity.
+      rewrite (PR i Li), at_index_pval in E by lia. injection E as <-. reflexivity.
     - exists st. split; [assumption|]. intros i Li.
       destruct (nth_error hs i) as [h|] eqn:E; [|apply nth_error_None in E; lia].
       rewrite (store_exact hs st A L i h E), <- (PR i Li). symmetry. exact E.
@@ -1047,6 +1059,12 @@ Qed.
 Lemma skipn_app_len {A} (a b : list A) n : length a = n -> skipn n (a ++ b) = b.
 Proof. intros <-. rewrite skipn_app, Nat.sub_diag, skipn_all. reflexivity. Qed.
 
+Ltac bool_cases :=
+  repeat match goal with
+         | |- context [N.leb ?a ?b] => destruct (N.leb_spec a b)
+         | |- context [N.ltb ?a ?b] => destruct (N.ltb_spec a b)
+         end; cbn [andb]; try reflexivity; try lia.
+
 Definition wf_el (e : element bytes) : Prop :=
   el_index e < 2 ^ 64 /\ length (el_hash e) = 32%nat.
 
@@ -1070,21 +1088,18 @@ Proof.
     destruct (Nat.ltb_spec
                 (length (be 8 ei ++ eh ++ enc_buckets n (i + 1) bs ++ rest)) 40) as [X|_].
     { rewrite !app_length, L8, W2 in X. lia. }
-    rewrite (firstn_app_len _ _ 8 L8), (skipn_app_len _ _ 8 L8).
-    rewrite (firstn_app_len _ _ 32 W2), of_be_be8 by assumption.
+    set (tl := enc_buckets n (i + 1) bs ++ rest).
+    rewrite (firstn_app_len (be 8 ei) (eh ++ tl) 8 L8).
+    rewrite (skipn_app_len (be 8 ei) (eh ++ tl) 8 L8).
+    rewrite (firstn_app_len eh tl 32 W2), of_be_be8 by assumption.
     rewrite (app_assoc (be 8 ei) eh).
-    rewrite (skipn_app_len (be 8 ei ++ eh) _ 40)
+    rewrite (skipn_app_len (be 8 ei ++ eh) tl 40)
       by (rewrite app_length, L8, W2; reflexivity).
+    unfold tl.
     destruct (IH (i + 1) bs rest ((i, mkEl ei eh) :: acc)) as (acc' & D & B).
     { intros b Lb. apply WF. lia. }
-    exists acc'. split; [exact D|]. intros b. rewrite B. cbn [bucket_get].
-    destruct (N.eqb_spec b i) as [->|NE].
-    + rewrite G.
-      destruct (N.leb_spec (i + 1) i), (N.leb_spec i i),
-        (N.ltb_spec i (i + N.succ (N.of_nat n))); cbn [andb]; try reflexivity; lia.
-    + destruct (N.leb_spec (i + 1) b), (N.leb_spec i b),
-        (N.ltb_spec b (i + 1 + N.of_nat n)),
-        (N.ltb_spec b (i + N.succ (N.of_nat n))); cbn [andb]; try reflexivity; lia.
+    exists acc'. split; [exact D|]. intros b. rewrite B, Nat2N.inj_succ. cbn [bucket_get].
+    destruct (N.eqb_spec b i) as [->|NE]; [rewrite G|]; bool_cases.
 Qed.
 
 Definition wf_store (st : bstore) : Prop :=
@@ -1123,8 +1138,9 @@ Proof.
   { rewrite N2Nat.id. intros b Lb. apply W3. lia. }
   rewrite D.
   assert (L8 : length (be 8 (st_index st)) = 8%nat) by apply be_bytes_length.
-  rewrite L8. cbn [Nat.ltb Nat.leb].
-  rewrite <- L8 at 1. rewrite firstn_all, of_be_be8 by assumption.
+  destruct (Nat.ltb_spec (length (be 8 (st_index st))) 8) as [X|_]; [lia|].
+  rewrite (firstn_all2 (be 8 (st_index st))) by lia.
+  rewrite of_be_be8 by assumption.
   eexists. split; [reflexivity|]. cbn [len_buckets st_index buckets].
   split; [reflexivity|]. split; [reflexivity|].
   intros b. rewrite B, N2Nat.id. cbn [bucket_get].
@@ -1239,7 +1255,7 @@ Proof.
   { intros x L1 L2. cbn [new_store st_index] in L1. unfold start_index in L1.
     rewrite two48 in L2. lia. }
   destruct (run_ops_inv ops new_store (fun _ => []) st
-              (Inv_new bytes sha256 flip_bytes _) L0 F L A)
+              (Inv_new bytes sha256 flip_bytes bytes_eqb bytes_eqb_eq _) L0 F L A)
     as (val & I & L32 & X & _ & NT).
   cbn [new_store st_index] in X, NT.
   split; [apply (reload_eq st val I L32)|]. split; [|split].
